@@ -50,7 +50,12 @@ func TestC15(t *testing.T) {
 			slice := drawSlicer(rt, "srcslice")
 			s := &Sched{Spec: spec, MaxSteps: 200000}
 			var dr *DiffResult
-			s.Run(t, func() { dr = Diff(oldDir, newDir, comp, DiffSeams{SourceSlice: slice, Yield: s.Yield}) })
+			prevProcs := runtime.GOMAXPROCS([]int{0, 1, 2, 5}[run])
+			eofWith, sigViaFile := rapid.Bool().Draw(rt, "eofwith"), rapid.Bool().Draw(rt, "sigviafile")
+			s.Run(t, func() {
+				dr = Diff(oldDir, newDir, comp, DiffSeams{SourceSlice: slice, Yield: s.Yield, EOFWith: eofWith, SigViaFile: sigViaFile})
+			})
+			runtime.GOMAXPROCS(prevProcs)
 			if s.BudgetExceeded {
 				return
 			}
@@ -90,7 +95,10 @@ func TestC15(t *testing.T) {
 			spec.MapOrder = run // sorted, random permutation, reversed
 			s := &Sched{Spec: spec, MaxSteps: 300000}
 			var or *OptimizeResult
+			// "how many CPUs are available" must not matter: each run sees another GOMAXPROCS
+			prevProcs := runtime.GOMAXPROCS([]int{0, 1, 3}[run])
 			s.Run(t, func() { or = Optimize(refPatch, oldDir, newDir, k, nil, s.Yield) })
+			runtime.GOMAXPROCS(prevProcs)
 			if s.BudgetExceeded {
 				return
 			}
